@@ -430,6 +430,42 @@ func runC17(p *Prog, r *Report) {
 			checkGuard(p, r, GuardSpec{Rule: "banned-never-readmitted", Fn: fn, Target: insertCall, TargetDesc: "inserting into the recency list", Atoms: []Atom{fresh, ban}, G: func(a []bool) bool { return a[0] || !a[1] }, GDesc: "not resident ∨ ¬ban", MinTargets: 2})
 			ordFollow(p, r, fn, "admission-charged", nil, evCall("(*leveldb/cache.Node).GetHandle"), "taking the policy's handle", usedAdd, "used += size")
 		}
+		if fn := resolveFn(p, r, "leveldb/cache", "(*lru).Ban"); fn != nil {
+			// Ban ALWAYS leaves the node banned, resident or not: a node that is alive (held by a user
+			// handle) but not in the list gets a banned placeholder, otherwise the next Get re-admits
+			// the deleted node and its finalisation / deletion callback is deferred indefinitely
+			fresh := nilAtom("CacheData==nil", mFieldLoad(tCNode, "CacheData"))
+			ban := boolAtom("ban", mFieldLoad(tLRUNode, "ban"))
+			placeholder := func(in ssa.Instruction) bool {
+				st, ok := in.(*ssa.Store)
+				return ok && isFieldAddr(st.Addr, tCNode, "CacheData") && !isNilConst(st.Val)
+			}
+			setBan := func(in ssa.Instruction) bool {
+				st, ok := in.(*ssa.Store)
+				if !ok || !isFieldAddr(st.Addr, tLRUNode, "ban") {
+					return false
+				}
+				b, isC := constBool(st.Val)
+				return isC && b
+			}
+			checkGuardExact(p, r, GuardSpec{Rule: "non-resident-node-gets-banned-placeholder", Fn: fn, Target: placeholder, TargetDesc: "a banned placeholder is installed in n.CacheData", Atoms: []Atom{fresh, ban}, G: func(a []bool) bool { return a[0] }, GDesc: "the node is not known to the policy (CacheData == nil)"}, isReturn, "return")
+			checkGuardExact(p, r, GuardSpec{Rule: "resident-node-marked-banned", Fn: fn, Target: setBan, TargetDesc: "rn.ban = true", Atoms: []Atom{fresh, ban}, G: func(a []bool) bool { return !a[0] && !a[1] }, GDesc: "resident and not yet banned"}, isReturn, "return")
+			// the placeholder is created banned
+			r.Site(1)
+			okPh := false
+			instrs(fn, func(_ *ssa.BasicBlock, _ int, in ssa.Instruction) {
+				if st, ok := in.(*ssa.Store); ok && isFieldAddr(st.Addr, tLRUNode, "ban") {
+					if b, isC := constBool(st.Val); isC && b {
+						if fa, ok := st.Addr.(*ssa.FieldAddr); ok {
+							if al, ok := fa.X.(*ssa.Alloc); ok && al.Heap {
+								okPh = true
+							}
+						}
+					}
+				}
+			})
+			r.Check(okPh, fnName(fn), "placeholder-is-banned", "the placeholder lruNode is created with ban = true", "no &lruNode{ban: true}", p.Pos(fn.Pos()))
+		}
 		for _, name := range []string{"(*lru).Ban", "(*lru).Evict"} {
 			fn := resolveFn(p, r, "leveldb/cache", name)
 			if fn == nil {
